@@ -11,6 +11,7 @@ PROP = {
              "every step every key of the key space is probed; non-trivial = a hit followed by a miss after expiry on the same key, or a "
              "re-store while the old entry's clean-up timer is still pending, or a refusal by the size limit; distinct = canonical JSON of the case"),
     "assumptions": [
+        "unit TestCacheSizeAcrossConfigs: one configuration in five has max_cache_size_megabytes 0 - a size of zero set on purpose (or lowered to by a reload): nothing may be held, and replayed, under it",
         "the history units count the death of their process (a Go runtime fault inside a plugin, e.g. concurrent map writes during a burst of concurrent calls) as a violation: the history that was running is written to a journal first and becomes the replay",
         "the URL pool holds URLs that differ only in the port of the host part (h.com/a, h.com:8080/a, h.com:9090/a) or in the letter case of the path: they are different URLs, a response stored for one is never an answer for another",
         "the gateway's log level (LOG_LEVEL: off in three cases of eight, else error / info / debug / trace; what is logged is thrown away, what a log statement does to build its arguments happens) is a generated part of every case of TestCachingHistories and TestThrottlingHistories: no answer may depend on it; a failing case reports its level",
